@@ -23,6 +23,8 @@ CORPUS = [
     # a unary operator applied to a function that the parser rewrites into an operator / a CASE
     ("", "SELECT -MOD(a, 2)"),
     ("", "SELECT NOT IF(a, b, c)"),
+    # ... and the same with an operand that itself renders with a leading minus once MOD has become `%`
+    ("", "SELECT -MOD(-a, 2)"),
     ("", "SELECT a BETWEEN 1 AND 2"),
     ("", "SELECT CASE WHEN a THEN 1 END"),
     ("", "SELECT CAST(a AS INT)"),
@@ -70,6 +72,10 @@ def contexts(dialect: str, sql: str):
             out.append((f"glue@{i}", sql[: t.start], sql[t.start:]))
         else:
             out.append((f"rep@{i}", sql[: t.start], sql[t.end + 1:]))
+        # the first token of a bracketed operand additionally gets the glue kind whatever the cycle gave it: a prefix
+        # operator character glued to an operand is how `f(-a)`, `(~a)`, `(-1)` arise from `f(a)`, `(a)`, `(1)`
+        if kind != "glue" and i and toks[i - 1].text == "(" and t.text not in ("(", ")"):
+            out.append((f"glue@{i}", sql[: t.start], sql[t.start:]))
     out.append(("end", sql + " ", ""))
     return out
 
